@@ -10,7 +10,15 @@ _H_NOTE = ("The real Handler::start() loop is driven in lockstep on a paused tok
 _H_TECH = ("TLA+ spec of the handler (Handler.tla: handler/mod.rs, session.rs, active_requests.rs transcribed function by function, composed with an "
            "environment of peers/attacker/network in MC_Handler.tla) model-checked with TLC; TLC coverage-goal counterexamples and simulation walks "
            "replayed on the real Handler; every recorded step validated by TLC: strict conformance (events, datagrams, exemption map, bookkeeping) and ")
+_Q_NOTE = ("Binding through the QueryFacade hook (explicit time). The service-level half (callback fires exactly once, pool query timeout) is not yet bound; "
+           "liveness is model-checked on the specification (with weak fairness of polling and time) and checked on the code in its bounded form (a drain loop must reach Finished).")
 META = {
+ "C09": dict(technique="TLA+ transcription of FindNodeQuery/PredicateQuery (Query.tla) model-checked with TLC incl. the liveness formula; TLC goal/simulation behaviours and a random driver executed on the real state machines; traces validated by TLC (strict conformance of every peer state + monitor formulas C09.ContactTwice / Parallelism / NotTerminated)",
+   text="All event orders (success, failure, silence, late success, any returned peer sets) for 4 peers exhaustively on the specification with CapInv, NwInv, ContactOnce and termination; on the code thousands of generated and random call sequences with up to 24 peers, each drained to completion.",
+   note=_Q_NOTE),
+ "C10": dict(technique="same Query.tla specification; result formulas (ordered, bounded, answered, predicate, complete) model-checked at every finished state and evaluated by TLC on into_result() of the real state machines",
+   text="Exhaustive on the specification for 4 peers; on the code for every generated/random behaviour the final result is judged by TLC against the observed history of reports.",
+   note=_Q_NOTE),
  "C01": dict(technique=_H_TECH + "the monitor formulas C01.Attribution / C01.KeyDisclosed over attributed observations",
    text="Design level: exhaustive TLC runs of handler + Dolev-Yao style attacker (own key, own/any record, any source address, replay) within small budgets with AuthInv/AuthEvInv. Code level: the generated attack behaviours (forged handshakes with own/newer/no record, from the attacker's and the victim's address, interleaved with genuine traffic) are executed against the real handler and every HandlerOut event and emitted datagram is judged by TLC. Bounded model checking + conformance, not a cryptographic proof.",
    note=_H_NOTE),
